@@ -181,6 +181,62 @@ def check_segment(name, rot, acc, only=None, scale=1.0, shift=0j, lattice_n=4):
         # and nothing better than the true extremes can be reported either
         if gmin < dmin - tol - 1e-12 * size or gmax > dmax + tol + 1e-12 * size:
             acc.violation('beyond_true_extreme', sig, case, observed=[gmin, gmax], expected=[dmin, dmax])
+        if fam in OPTION_FAMILIES:
+            check_option_forms(seg, z, (dmin, dmax), size, tol, kind, dict(case), acc)
+
+
+OPTION_FAMILIES = ('far', 'beyond_end', 'near')
+
+
+def check_option_forms(seg, z, truth, size, tol, kind, case, acc):
+    """return_all_global_extrema given explicitly: False (keyword, positional) is the default answer; True is either
+    refused (NotImplementedError, documented as not implemented) or lists (d, t) pairs every one of which is a point
+    of the segment at that distance and a global extreme"""
+    dmin, dmax = truth
+    import inspect
+    # (Line.radialrange takes the option through **kwargs only: the positional spelling is not part of its interface)
+    positional_ok = 'return_all_global_extrema' in inspect.signature(type(seg).radialrange).parameters
+    for form, fn in (('False_keyword', lambda: seg.radialrange(z, return_all_global_extrema=False)),
+                     ('False_positional', lambda: seg.radialrange(z, False)),
+                     ('True_keyword', lambda: seg.radialrange(z, return_all_global_extrema=True)),
+                     ('True_positional', lambda: seg.radialrange(z, True))):
+        if form.endswith('positional') and not positional_ok:
+            continue
+        r = outcome(fn)
+        c = dict(case, option=form)
+        sig = {'kind': kind, 'option': form}
+        if r[0] != 'ok':
+            if form.startswith('True') and r[1] == 'NotImplementedError':
+                acc.case(c, cls='%s/option/%s/not_implemented' % (kind, form))
+                continue
+            acc.violation('radialrange_raises', dict(sig, exc=r[1]), c, observed=r)
+            continue
+        acc.case(c, cls='%s/option/%s/answered' % (kind, form))
+        try:
+            mins, maxs = r[1]
+            mins = [mins] if not isinstance(mins, list) else mins
+            maxs = [maxs] if not isinstance(maxs, list) else maxs
+            mins = [(float(d), float(t)) for d, t in mins]
+            maxs = [(float(d), float(t)) for d, t in maxs]
+            assert mins and maxs
+        except Exception:
+            acc.violation('malformed_result', sig, c, observed=repr(r[1])[:300])
+            continue
+        bad = None
+        for which, lst, want in (('min', mins, dmin), ('max', maxs, dmax)):
+            for d, t in lst:
+                if not 0 <= t <= 1:
+                    bad = ('parameter_out_of_range', [d, t])
+                elif not abs(abs(seg.point(t) - z) - d) <= tol:
+                    bad = ('distance_not_distance_of_returned_parameter', [d, t])
+                elif abs(d - want) > 1e-6 * size:
+                    bad = ('not_global_minimum' if which == 'min' else 'not_global_maximum', [d, t, want])
+                if bad:
+                    break
+            if bad:
+                break
+        if bad:
+            acc.violation(bad[0], sig, c, observed=bad[1], expected=[dmin, dmax])
 
 
 PATHS = [('L_diagonal', 'Q_generic', 'C_arch'), ('C_sshape', 'C_loop'), ('Q_foldback_real', 'L_vertical'), ('C_cusp',),
@@ -349,7 +405,8 @@ def shards(tier, seed):
     out += [{'what': 'path', 'word': list(w)} for w in PATHS]
     out.append({'what': 'special'})
     out += AB.provenance_shards(out, tier, lambda d: d['what'] == 'segment' and d['rot'] in (0, 37) and 'scale' not in d)
-    out += AB.provenance_shards(out, tier, lambda d: d['what'] == 'path' or (d['what'] == 'long' and d['n'] in (3, 33, 64)), key='pprov')
+    out += AB.provenance_shards(out, 'thorough', lambda d: d['what'] == 'path', key='pprov')       # cheap: every history in both tiers
+    out += AB.provenance_shards(out, tier, lambda d: d['what'] == 'long' and d['n'] in (3, 33, 64), key='pprov')
     from mc import longpaths as LP
     out += [{'what': 'long', 'n': n, 'kinds': k} for n in (LP.SIZES_QUICK if tier == 'quick' else LP.SIZES_THOROUGH)
             for k in (('L', 'LQC') if tier == 'quick' else ('L', 'Q', 'C', 'LQC', 'CL'))]
